@@ -52,6 +52,22 @@ def step (line : String) : String :=
     match k.toNat?, g.toNat?, p.toNat? with
     | some k, some g, some p => "ok " ++ statsFor (r == "d") (k + g * p)
     | _, _, _ => "bad-op"
+  | ["cold", r, conns, g] =>
+    match conns.toNat?, g.toNat? with
+    | some conns, some g =>
+      -- every fresh connection runs g atomic steps from its start value; all connections are alike
+      let s := runStats (if r == "d" then 1 else 0) g (start (r == "d")) {}
+      let good := s.increasing && s.zero == 0 && s.bad == 0
+      s!"ok conns={conns} g={g} dup={if s.increasing then 0 else conns} zero={s.zero * conns} badparity={s.bad * conns} exact={if good then conns else 0}"
+    | _, _ => "bad-op"
+  | ["life", r, n] =>
+    match n.toNat? with
+    | some n => "ok " ++ statsFor (r == "d") (3 * n)
+    | none => "bad-op"
+  | ["alife", r, n] =>
+    match n.toNat? with
+    | some n => "ok " ++ statsFor (r == "d") (3 * n)
+    | none => "bad-op"
   | ["pair", g, p] =>
     match g.toNat?, p.toNat? with
     | some g, some p => "ok d: " ++ statsFor true (g * p) ++ " l: " ++ statsFor false (g * p) ++ " overlap=0"
@@ -84,6 +100,13 @@ def spec (line : String) (implOut : String) : String :=
     match tokens line with
     | "conc" :: _ => match specStats o with | some t => "fail " ++ t | none => "ok"
     | "warm" :: _ => match specStats o with | some t => "fail " ++ t | none => "ok"
+    | "life" :: _ => match specStats o with | some t => "fail " ++ t | none => "ok"
+    | "alife" :: _ => match specStats o with | some t => "fail " ++ t | none => "ok"
+    | "cold" :: _ =>
+      match field o "dup", field o "zero", field o "badparity" with
+      | some d, some z, some b =>
+        if d ≠ 0 then "fail duplicate-id" else if z ≠ 0 then "fail zero-id" else if b ≠ 0 then "fail wrong-parity" else "ok"
+      | _, _, _ => "fail unparsable-output"
     | "pair" :: _ =>
       let dpart := o.takeWhile (· ≠ "l:")
       let lpart := o.dropWhile (· ≠ "l:")
